@@ -258,6 +258,9 @@ def shard(ctx):
         if g is None:
             continue
         cases.append({'text': g['text'], 'features': g['features'], 'kind': 'generated', 'name': f'g{ctx.shard}.{len(cases)}'})
+    for t in range(ctx.scale(64, 640)):
+        g = mmdb.late_dv_case(rng)
+        cases.append({'text': g['text'], 'features': g['features'], 'kind': 'generated', 'name': f't{ctx.shard}.{t}'})
     # shipped databases: spread over the shards
     bench = [f for f in sorted((REPO / 'generation' / 'mm-benchmarks').glob('*.mm')) if f.read_text().strip()]
     for i, f in enumerate(bench):
